@@ -137,6 +137,10 @@ def _pairs(items, env):
     return out
 
 
+def _none_factory():
+    return None
+
+
 def build(v, env: Env | None = None):  # noqa: C901, PLR0911, PLR0912
     if v is None or isinstance(v, (bool, int, float, str)):
         return v
@@ -155,6 +159,8 @@ def build(v, env: Env | None = None):  # noqa: C901, PLR0911, PLR0912
         return collections.deque(build(x, env) for x in v["v"])
     if tag == "dd":
         return collections.defaultdict(None, _pairs(v["v"], env))
+    if tag == "ddnone":   # a defaultdict WITH a factory: looking a missing key up creates it
+        return collections.defaultdict(_none_factory, _pairs(v["v"], env))
     if tag == "bytes":
         return bytes.fromhex(v["h"])
     if tag == "bytearray":
